@@ -207,7 +207,7 @@ def load_corpus(prop: str) -> list[dict]:
     return out
 
 
-def run_batch(engine: Engine, tier: str, batch_seed: int, jobs: int, n_override: int | None = None) -> dict:
+def run_batch(engine: Engine, tier: str, batch_seed: int, jobs: int, n_override: int | None = None, keep_digests: int = 24) -> dict:
     """Run the generated part of a batch in parallel; returns the aggregate."""
     global _ENGINE  # noqa: PLW0603
     _ENGINE = engine
@@ -221,7 +221,7 @@ def run_batch(engine: Engine, tier: str, batch_seed: int, jobs: int, n_override:
         scen.setdefault("index", f"extra-{j}")
         res = safe_execute(engine, scen)
         _account(agg, scen, res, keep_sample=False)
-    n_first = min(n, 24)
+    n_first = min(n, keep_digests)
     if jobs <= 1 or n < 32:
         part = _worker_chunk((batch_seed, tier, 0, n, n_first))
         if "harness_error" in part:
